@@ -95,6 +95,9 @@ func (c16) Gen(r *simrt.Rand, idx int, tier string) *Case {
 	g.MaxTxn = 16
 	g.MaxSpan = 300
 	g.PUnicode = 0
+	if idx%5 == 3 {
+		g.PNegPrice = 0.15
+	}
 	c := &Case{Sub: "ledger", Gen: &g, Today: "2030-01-01"}
 	for try := 0; try < 20; try++ {
 		c.J = Gen(r, g)
